@@ -358,11 +358,11 @@ func showOutcomePB(rs []*storepb.SeriesResponse, sortSeries bool) string {
 // ---------------------------------------------------------------- running the real proxy
 
 type mergeReq struct {
-	lazy                 bool
-	buf, batch, limit    int
-	abort, dedup, shard  bool
-	without              []string
-	stores               []*pStore
+	lazy                bool
+	buf, batch, limit   int
+	abort, dedup, shard bool
+	without             []string
+	stores              []*pStore
 }
 
 func parseMergeReq(tok []string) (*mergeReq, bool) {
@@ -399,16 +399,9 @@ func parseMergeReq(tok []string) (*mergeReq, bool) {
 
 func storeName(i int) string { return fmt.Sprintf("s%d", i) }
 
-// runProxy executes the request on a real ProxyStore over fake clients.
-func runProxy(rq *mergeReq, sched uint64) (status string, resps []*storepb.SeriesResponse) {
+// buildProxy makes a real ProxyStore over the scripted fake clients of the request.
+func buildProxy(rq *mergeReq, sched uint64) *store.ProxyStore {
 	hasHang := false
-	// schedule variation: a quarter of the requests run with per-frame receive delays derived from the
-	// op line, half of those on a single P
-	if sched%4 == 0 {
-		if sched%8 == 0 {
-			defer runtime.GOMAXPROCS(runtime.GOMAXPROCS(1))
-		}
-	}
 	var clients []store.Client
 	for i, st := range rq.stores {
 		fc := &fakeClient{name: storeName(i), mint: math.MinInt64, maxt: math.MaxInt64, shardable: st.sharding, withoutReplica: st.without,
@@ -439,7 +432,17 @@ func runProxy(rq *mergeReq, sched uint64) (status string, resps []*storepb.Serie
 	if !rq.dedup {
 		opts = append(opts, store.WithoutDedup())
 	}
-	p := store.NewProxyStore(nil, nil, func() []store.Client { return clients }, component.Query, labels.EmptyLabels(), timeout, strategy, opts...)
+	return store.NewProxyStore(nil, nil, func() []store.Client { return clients }, component.Query, labels.EmptyLabels(), timeout, strategy, opts...)
+}
+
+// runProxy executes the request on a real ProxyStore over fake clients.
+func runProxy(rq *mergeReq, sched uint64) (status string, resps []*storepb.SeriesResponse) {
+	// schedule variation: a quarter of the requests run with per-frame receive delays derived from the
+	// op line, half of those on a single P
+	if sched%8 == 0 {
+		defer runtime.GOMAXPROCS(runtime.GOMAXPROCS(1))
+	}
+	p := buildProxy(rq, sched)
 	req := &storepb.SeriesRequest{MinTime: 0, MaxTime: 100, Limit: int64(rq.limit), ResponseBatchSize: int64(rq.batch),
 		Matchers:             []storepb.LabelMatcher{{Type: storepb.LabelMatcher_RE, Name: "b", Value: ".*"}, {Type: storepb.LabelMatcher_NEQ, Name: "zz", Value: "q"}},
 		WithoutReplicaLabels: rq.without, PartialResponseStrategy: storepb.PartialResponseStrategy_WARN}
@@ -1026,12 +1029,25 @@ func warnMsgs(i int, hang bool) string {
 
 // genMergeCase builds one merge.series line.  failures: probability (in 1/100) that a store fails.
 func genMergeCase(c *hlib.Ctx, failPct int, allowLimit bool) string {
+	return genMergeCaseOpt(c, mergeGenOpt{failPct: failPct, allowLimit: allowLimit})
+}
+
+type mergeGenOpt struct {
+	failPct     int
+	allowLimit  bool
+	alwaysDedup bool // the proxy-side deduplicator is on (the querier's proxy)
+	barrenPct   int  // probability (in 1/100) that no store holds any series
+	earlyFail   bool // failures happen before the first frame
+}
+
+func genMergeCaseOpt(c *hlib.Ctx, o mergeGenOpt) string {
+	failPct, allowLimit := o.failPct, o.allowLimit
 	r := c.R
 	lazy := r.Bool()
 	buf := []int{1, 2, 7}[r.Intn(3)]
 	batch := []int{0, 1, 2, 3, 64}[r.Intn(5)]
 	abort := r.Chance(1, 4)
-	dedup := !r.Chance(1, 20)
+	dedup := !r.Chance(1, 20) || o.alwaysDedup
 	shard := r.Chance(1, 5)
 	withoutOn := r.Chance(2, 5)
 	aggr := r.Chance(1, 2)
@@ -1042,6 +1058,10 @@ func genMergeCase(c *hlib.Ctx, failPct int, allowLimit bool) string {
 	limit := 0
 	// logical series: label sets over b, c (replica label "a" sorts first)
 	nLogical := r.Range(0, 6)
+	if o.barrenPct > 0 && r.Intn(100) < o.barrenPct {
+		nLogical = 0
+		c.Count("case:no-store-holds-a-series")
+	}
 	var logical [][]gLabel
 	seenL := map[string]bool{}
 	for len(logical) < nLogical {
@@ -1170,10 +1190,16 @@ func genMergeCase(c *hlib.Ctx, failPct int, allowLimit bool) string {
 				c.Count("failure:open")
 			case 1:
 				st.fail = fmt.Sprintf("h%d", r.Intn(len(st.frames)+1))
+				if o.earlyFail {
+					st.fail = "h0"
+				}
 				nonSeries++
 				c.Count("failure:hang")
 			default:
 				st.fail = fmt.Sprintf("r%d", r.Intn(len(st.frames)+1))
+				if o.earlyFail {
+					st.fail = "r0"
+				}
 				nonSeries++
 				c.Count("failure:recv")
 			}
